@@ -345,3 +345,41 @@ package iterator
 //@   ensures jiRep(iter) && jiSuffix(iter)
 //@   ensures result1 ==> len(iter.iters) > 0 && iter.iters[0].pos >= 1 && result0 == iter.iters[0].seq[iter.iters[0].pos-1]
 //@   ensures !result1 ==> result0 == zero(result0) && len(iter.iters) == 0
+
+// ---- Runs: the outer iterator hands out one inner iterator per maximal run; an inner iterator ends
+// for good (parent == nil) at the first item that is not `same` as the first item of its run ----
+
+//@ func Runs
+//@   props C07
+//@   requires itInv(iter)
+//@   ensures fresh(result) && result.(*runsIterator[T]).same == same && result.(*runsIterator[T]).curr == nil
+//@   ensures pkInv(result.(*runsIterator[T]).inner) && result.(*runsIterator[T]).inner.seq == iter.seq && result.(*runsIterator[T]).inner.n == iter.n && result.(*runsIterator[T]).inner.pos == iter.pos && untouched(iter)
+
+//@ func runsInnerIterator.Next
+//@   props C07
+//@   requires iter.parent != nil ==> pkInv(iter.parent.inner) && iter.parent.same != nil
+//@   modifies iter.parent, iter.parent.inner.pos
+//@   ensures old(iter.parent) == nil ==> !result1 && result0 == zero(result0) && iter.parent == nil
+//@   ensures !result1 ==> old(iter.parent).inner.pos == old(iter.parent.inner.pos)
+//@   ensures old(iter.parent) != nil ==> pkInv(old(iter.parent).inner)
+//@   ensures old(iter.parent) != nil && old(iter.parent.inner.pos) < old(iter.parent).inner.n && old(iter.parent).same(iter.prev, old(iter.parent).inner.seq[old(iter.parent.inner.pos)])
+//@       ==> result1 && result0 == old(iter.parent).inner.seq[old(iter.parent.inner.pos)] && iter.parent == old(iter.parent) && old(iter.parent).inner.pos == old(iter.parent.inner.pos) + 1
+//@   ensures old(iter.parent) != nil && !(old(iter.parent.inner.pos) < old(iter.parent).inner.n && old(iter.parent).same(iter.prev, old(iter.parent).inner.seq[old(iter.parent.inner.pos)]))
+//@       ==> !result1 && result0 == zero(result0) && iter.parent == nil && old(iter.parent).inner.pos == old(iter.parent.inner.pos)
+
+//@ func runsIterator.Next
+//@   props C07
+//@   requires pkInv(iter.inner) && iter.same != nil && (iter.curr != nil ==> iter.curr.parent == nil || iter.curr.parent == iter)
+//@   modifies iter.curr, iter.inner.pos, iter.curr.parent
+//@   loop 0: invariant pkInv(iter.inner) && old(iter.inner.pos) <= iter.inner.pos && iter.curr == old(iter.curr) && (iter.curr.parent == nil || iter.curr.parent == iter)
+//@   loop 0: invariant old(iter.curr.parent) == nil ==> iter.inner.pos == old(iter.inner.pos) && iter.curr.parent == nil
+//@   loop 0: invariant iter.inner == old(iter.inner) && iter.same == old(iter.same) && iter.curr != nil && (old(iter.curr.parent) != nil ==> iter.curr.parent == iter)
+//@   loop 0: invariant forall t int {iter.inner.seq[t]} :: old(iter.inner.pos) <= t && t < iter.inner.pos ==> iter.same(iter.curr.prev, iter.inner.seq[t])
+//@   ensures pkInv(iter.inner) && old(iter.inner.pos) <= iter.inner.pos
+//@   ensures forall t int {iter.inner.seq[t]} :: old(iter.inner.pos) <= t && t < iter.inner.pos ==> old(iter.curr) != nil && iter.same(old(iter.curr).prev, iter.inner.seq[t])
+//@   ensures old(iter.curr) != nil && old(iter.curr.parent) != nil && iter.inner.pos < iter.inner.n ==> !iter.same(old(iter.curr).prev, iter.inner.seq[iter.inner.pos])
+//@   ensures old(iter.curr) == nil || old(iter.curr.parent) == nil ==> iter.inner.pos == old(iter.inner.pos)
+//@   ensures old(iter.curr) != nil ==> old(iter.curr).parent == nil
+//@   ensures result1 <==> iter.inner.pos < iter.inner.n
+//@   ensures result1 ==> result0 != nil && fresh(result0) && iter.curr == result0.(*runsInnerIterator[T]) && iter.curr.parent == iter && iter.curr.prev == iter.inner.seq[iter.inner.pos]
+//@   ensures !result1 ==> result0 == nil && iter.curr == nil
